@@ -7,14 +7,18 @@ PID=$1; WT=${2:-/tmp/seed-$PID}; OUT=$WT/SEED_OUT
 [ -f $OUT/patch.diff ] || { echo "no $OUT/patch.diff"; exit 2; }
 cd $WT || exit 2
 git checkout -- . 2>/dev/null
-DEMO_CMD=$(python3 -c "import json;print(json.load(open('$OUT/meta.json'))['demo_cmd'])")
-TEST_CMD=$(python3 -c "import json;print(json.load(open('$OUT/meta.json'))['existing_tests_cmd'])")
+DEMO_CMD=$(python3 -c "import json,re;print(re.split(r'\s+\(', json.load(open('$OUT/meta.json'))['demo_cmd'])[0])")
+TEST_CMD=$(python3 -c "import json,re;print(re.split(r'\s+\(', json.load(open('$OUT/meta.json'))['existing_tests_cmd'])[0])")
+# untracked files = the demonstration; they are moved away while the EXISTING tests run
+UNTRACKED=$(git ls-files --others --exclude-standard | grep -v '^SEED_OUT/' | grep -v '^target/')
 echo "== demo without patch: $DEMO_CMD"
 ( eval "$DEMO_CMD" ) > $OUT/confirm_demo_without.log 2>&1; r0=$?
 echo "   exit $r0"
 git apply $OUT/patch.diff || { echo "PATCH DOES NOT APPLY"; exit 3; }
 echo "== existing tests with patch: $TEST_CMD"
+mkdir -p $OUT/stash; for f in $UNTRACKED; do mkdir -p $OUT/stash/$(dirname $f); mv $f $OUT/stash/$f; done
 ( eval "$TEST_CMD" ) > $OUT/confirm_tests_with.log 2>&1; r1=$?
+for f in $UNTRACKED; do mv $OUT/stash/$f $f; done
 echo "   exit $r1: $(grep -E '^test result' $OUT/confirm_tests_with.log | head -3 | tr '\n' ' ')"
 echo "== demo with patch"
 ( eval "$DEMO_CMD" ) > $OUT/confirm_demo_with.log 2>&1; r2=$?
